@@ -422,6 +422,15 @@ func getTcbInfo(fmspc string, getter trust.HTTPSGetter, collateral *Collateral) 
 		}
 	}
 	collateral.TcbInfoBody = tcbInfoRawBody
+	// Take the tcbInfo values from the raw member whose signature is verified,
+	// not from whichever member of the enclosing body json matched last.
+	var tcbInfo pcs.TcbInfo
+	if err := json.Unmarshal(tcbInfoRawBody, &tcbInfo); err != nil {
+		return &trust.AttestationRecreationErr{
+			Msg: fmt.Sprintf("unable to unmarshal tcbInfo: %v", err),
+		}
+	}
+	collateral.TdxTcbInfo.TcbInfo = tcbInfo
 	return nil
 }
 
@@ -457,6 +466,15 @@ func getQeIdentity(getter trust.HTTPSGetter, collateral *Collateral) error {
 		}
 	}
 	collateral.EnclaveIdentityBody = qeIdentityRawBody
+	// Take the enclaveIdentity values from the raw member whose signature is
+	// verified, not from whichever member of the enclosing body json matched last.
+	var enclaveIdentity pcs.EnclaveIdentity
+	if err := json.Unmarshal(qeIdentityRawBody, &enclaveIdentity); err != nil {
+		return &trust.AttestationRecreationErr{
+			Msg: fmt.Sprintf("unable to unmarshal enclaveIdentity: %v", err),
+		}
+	}
+	collateral.QeIdentity.EnclaveIdentity = enclaveIdentity
 	return nil
 }
 
